@@ -11,8 +11,8 @@
    Images are nested lists in tensor order [y][x] / [z][y][x]; indices J are in (x, y[, z]) order. *)
 From Coq Require Import ZArith QArith Qcanon List Lia.
 From DV Require Import Base.Field Base.LinAlg Base.QcInst Model.Enums Model.Homog Model.Grid Model.ItkSpec Model.Sampler
-  Model.SamplerQc Gen.GridT Gen.SampleT Model.Resample Model.ResampleQc
-  Proofs.C05Index Proofs.C05Kernel Proofs.C05Main Proofs.C05Border Proofs.C05Qc
+  Model.SamplerQc Gen.GridT Gen.SampleT Model.Resample Model.ResampleOwn Model.ResampleQc
+  Proofs.C05Index Proofs.C05Kernel Proofs.C05Main Proofs.C05Border Proofs.C05Own Proofs.C05Qc
   Proofs.C05GenBS2 Proofs.C05GenBS3a Proofs.C05GenBS3n Proofs.C05GenModA Proofs.C05GenModN.
 Import ListNotations.
 
@@ -55,6 +55,15 @@ Theorem C05_module_index_matches_itk :
   mod_index D A ac (vtab D tn) (vtab D ts) (vtab D tc) (tab D D td) (map snz (seq 0 D)) (vtab D ss) (vtab D sc) (tab D D sd) J
   = itk_cindex D (vtab D tn) (vtab D ts) (vtab D tc) (tab D D td) (vtab D (zsz snz)) (vtab D ss) (vtab D sc) (tab D D sd) J.
 Proof. exact (module_index_matches_itk K Kf Kc). Qed.
+
+(* 2b. module API with the source grid omitted (source = target; Grid.transform's same-grid branch, traced as gen_smat_own
+       for the 4 axes x both flags x D in {2,3}): through the precomputed matrix, target.points(axes) and grid_sample's
+       un-normalisation, target index J is sampled at the continuous index J itself (own-grid identity) *)
+Theorem C05_module_own_index_id :
+  forall (D : nat) (A : axes) (ac : bool) (nz : nat -> Z) (s c : nat -> K) (d : nat -> nat -> K) (J : list K),
+  D = 2%nat \/ D = 3%nat -> wf D (zsz nz) s d -> length J = D ->
+  mod_own_index D A ac (map nz (seq 0 D)) (vtab D s) (vtab D c) (tab D D d) J = J.
+Proof. exact (module_own_index_id K Kf Kc). Qed.
 
 (* 3. sample_matches_itk, value form: linear (inside the source field of view [0,n-1]^D, any padding
       mode or constant, any ITK default value) and nearest (inside ITK's buffer, away from rounding ties):
@@ -257,6 +266,7 @@ End Statements.
 
 Print Assumptions C05_index_matches_itk.
 Print Assumptions C05_module_index_matches_itk.
+Print Assumptions C05_module_own_index_id.
 Print Assumptions C05_sample_matches_itk2.
 Print Assumptions C05_sample_matches_itk3.
 Print Assumptions C05_sample_matches_itk_border2.
